@@ -32,6 +32,7 @@ META = dict(
     technique="comparison-only lint (def-use), affine index arithmetic, exhaustive decision tables, loop-skeleton (exists-early-return) matching",
 )
 META["text"] += ' R2 also: every reader of the format stores tokens verbatim (a case-folded token may be compared, not stored); grouping records with itertools.groupby on unsorted input is refuted.'
+META["text"] += ' R1 also: the ballot predicates keep no state between calls.'
 
 
 def run(chk):
